@@ -114,7 +114,7 @@ func drawChunks(t *rapid.T, label string, size int) []int {
 	return c
 }
 
-var plainKinds = []string{"write-msg", "writer", "writer", "writer-fail", "ownbuf", "shared-send", "send-close", "read-data", "read-msg", "reader", "ping", "ping", "pong", "compiled"}
+var plainKinds = []string{"write-msg", "writer", "writer", "writer-fail", "ownbuf", "cipher-writer", "cipher-reader", "readfrom", "control-writer", "mask-helpers", "shared-send", "send-close", "read-data", "read-msg", "reader", "ping", "ping", "pong", "compiled"}
 var flateKinds = []string{"flate-send", "flate-recv", "flate-writer", "flate-reader"}
 
 // drawTemplate draws the shape of a session. light = layer 2 (many sessions per case).
@@ -178,7 +178,7 @@ func drawTemplate(t *rapid.T, light bool) template {
 		s.Which = rapid.IntRange(0, 15).Draw(t, "which")
 		s.Cap = rapid.Bool().Draw(t, "capclass")
 		switch s.Kind {
-		case "ping", "pong":
+		case "ping", "pong", "control-writer":
 			s.Size = s.Size % 126
 		case "flate-send", "flate-recv", "flate-writer", "flate-reader":
 			if s.Size > 16000 {
@@ -387,6 +387,14 @@ type session struct {
 	helper wsflate.Helper
 	ext    wsflate.Extension
 	closed bool
+	cw     *wsutil.CipherWriter
+	cwRec  *tx.Rec
+	cr     *wsutil.CipherReader
+	crGot  []byte
+	rfW    *wsutil.Writer
+	rfRec  *tx.Rec
+	ctlW   *wsutil.ControlWriter
+	ctlRec *tx.Rec
 	ownBuf []byte    // caller-owned Writer buffer whose capacity is a pool class
 	ownW   *wsutil.Writer
 	ownRec *tx.Rec
@@ -452,6 +460,14 @@ func newSession(id int, tp *template) *session {
 		case "writer-fail":
 			o.fam, o.class = "writer", sizeClass(sp.WSize)
 			s.ops = append(s.ops, o)
+		case "cipher-writer", "cipher-reader", "control-writer":
+			a, b := o, o
+			a.name, b.name = sp.Kind+"-1", sp.Kind+"-2"
+			s.ops = append(s.ops, a, b)
+		case "readfrom":
+			a, b := o, o
+			a.name, b.name = "readfrom-copy", "readfrom-flush"
+			s.ops = append(s.ops, a, b)
 		case "ownbuf":
 			o.fam, o.class = "ownbuf", sizeClass(sp.WSize)
 			a, b, c := o, o, o
@@ -991,6 +1007,181 @@ func (s *session) stepOwnbufReuseFlush(o op) {
 	s.expect(err == nil && ok && bytes.Equal(got, s.ownMsg), "Writer over the session's own buffer: the wire does not carry the %d bytes written before other sessions ran", len(s.ownMsg))
 	s.ownW = nil
 	s.keepPattern(1003+o.idx*16, fmt.Sprintf("the %d-byte buffer given to NewWriterBuffer (after its second message, refilled by the session)", len(s.ownBuf)))
+}
+
+// --- CipherWriter / CipherReader ---------------------------------------------
+
+func (s *session) cipherParts(o op) (p []byte, m1, m2 [4]byte, half int) {
+	p = s.payload(o, 0)
+	return p, peerMask(s.id, 2000+o.idx*16), peerMask(s.id, 2001+o.idx*16), len(p) / 2
+}
+
+// cipher-writer: the first half of a payload in one step, the rest (the mask
+// offset carries over) in the next; then Reset to a new destination and mask.
+func (s *session) stepCipherWriter1(o op) {
+	p, m1, _, half := s.cipherParts(o)
+	s.cwRec = tx.NewRec()
+	s.cw = wsutil.NewCipherWriter(s.dst(s.cwRec), m1)
+	n, err := s.cw.Write(p[:half])
+	s.logf("n=%d err=%s wire=%s", n, renderErr(err), digest(s.cwRec.Bytes()))
+}
+
+func (s *session) stepCipherWriter2(o op) {
+	p, m1, m2, half := s.cipherParts(o)
+	n, err := s.cw.Write(p[half:])
+	first := s.cwRec.Bytes()
+	rec2 := tx.NewRec()
+	s.cw.Reset(s.dst(rec2), m2)
+	tail := p[len(p)-len(p)/3:]
+	n2, err2 := s.cw.Write(tail)
+	s.logf("n=%d err=%s wire=%s after-reset n=%d err=%s wire=%s", n, renderErr(err), digest(first), n2, renderErr(err2), digest(rec2.Bytes()))
+	s.expect(err == nil && err2 == nil && bytes.Equal(first, ref.Mask(p, m1, 0)) && bytes.Equal(rec2.Bytes(), ref.Mask(tail, m2, 0)) && bytes.Equal(p, s.payload(o, 0)),
+		"CipherWriter: the destination did not receive the %d-byte payload XOR the key (or the caller's slice changed)", len(p))
+	s.cw = nil
+}
+
+// cipher-reader: a masked payload read back in two steps, then Reset.
+func (s *session) stepCipherReader1(o op) {
+	p, m1, _, half := s.cipherParts(o)
+	s.cr = wsutil.NewCipherReader(s.src(ref.Mask(p, m1, 0), o.spec.Chunks), m1)
+	s.crGot = make([]byte, half)
+	n, err := io.ReadFull(s.cr, s.crGot)
+	s.logf("n=%d err=%s got=%s", n, renderErr(err), digest(s.crGot))
+}
+
+func (s *session) stepCipherReader2(o op) {
+	p, _, m2, _ := s.cipherParts(o)
+	rest, err := io.ReadAll(s.cr)
+	got := append(append([]byte(nil), s.crGot...), rest...)
+	tail := p[len(p)/2:]
+	s.cr.Reset(s.src(ref.Mask(tail, m2, 0), o.spec.Chunks), m2)
+	got2, err2 := io.ReadAll(s.cr)
+	s.logf("err=%s got=%s after-reset err=%s got=%s", renderErr(err), digest(got), renderErr(err2), digest(got2))
+	s.expect(err == nil && err2 == nil && bytes.Equal(got, p) && bytes.Equal(got2, tail), "CipherReader did not recover the %d-byte payload", len(p))
+	s.cr = nil
+}
+
+// --- Writer.ReadFrom, NewWriter (default buffer), ResetOp ----------------------
+
+func splitMessages(b []byte) (msgs [][]ref.Frame, ok bool) {
+	fs, rest, _ := ref.ParseFrames(b)
+	var cur []ref.Frame
+	for _, f := range fs {
+		cur = append(cur, f)
+		if f.H.Fin {
+			msgs = append(msgs, cur)
+			cur = nil
+		}
+	}
+	return msgs, len(rest) == 0 && len(cur) == 0
+}
+
+func messageIs(fs []ref.Frame, op byte, masked bool, p []byte) bool {
+	var got []byte
+	for i, f := range fs {
+		want := op
+		if i > 0 {
+			want = ref.OpCont
+		}
+		if f.H.Op != want || f.H.Masked != masked || f.H.Rsv != 0 {
+			return false
+		}
+		got = append(got, f.Payload...)
+	}
+	return bytes.Equal(got, p)
+}
+
+func (s *session) stepReadFromCopy(o op) {
+	wop, _ := s.opcode(o.spec)
+	p := s.payload(o, 0)
+	s.rfRec = tx.NewRec()
+	s.rfW = wsutil.NewWriter(s.dst(s.rfRec), s.state, wop)
+	n, err := io.Copy(s.rfW, s.src(p, o.spec.Chunks)) // Writer.ReadFrom
+	s.logf("n=%d err=%s buffered=%d sent-so-far=%s", n, renderErr(err), s.rfW.Buffered(), renderWire(s.rfRec.Bytes()))
+}
+
+func (s *session) stepReadFromFlush(o op) {
+	_, rop := s.opcode(o.spec)
+	p := s.payload(o, 0)
+	err := s.rfW.Flush()
+	// second message on the same Writer: buffered bytes are dropped by ResetOp, the opcode changes
+	wop2, rop2 := ws.OpBinary, byte(ref.OpBinary)
+	if !o.spec.Text {
+		wop2, rop2 = ws.OpText, ref.OpText
+	}
+	_, werr := s.rfW.Write([]byte("dropped by ResetOp"))
+	s.rfW.ResetOp(wop2)
+	p2 := content(s.id, 1000+o.idx*16+2, 1+o.spec.Size%300, true)
+	_, werr2 := s.rfW.Write(p2)
+	err2 := s.rfW.Flush()
+	s.logf("flush=%s write=%s,%s flush2=%s wrote=%s", renderErr(err), renderErr(werr), renderErr(werr2), renderErr(err2), renderWire(s.rfRec.Bytes()))
+	msgs, ok := splitMessages(s.rfRec.Bytes())
+	s.expect(err == nil && err2 == nil && ok && len(msgs) == 2 && messageIs(msgs[0], rop, s.tpl.Client, p) && messageIs(msgs[1], rop2, s.tpl.Client, p2),
+		"io.Copy into a Writer + Flush, then ResetOp + Write + Flush: the wire does not carry the %d-byte and the %d-byte message", len(p), len(p2))
+	s.rfW = nil
+}
+
+// --- ControlWriter -----------------------------------------------------------------
+
+func (s *session) stepControlWriter1(o op) {
+	p := content(s.id, 1000+o.idx*16, o.spec.Size, false)
+	cop := ws.OpPing
+	if o.spec.Which%2 == 1 {
+		cop = ws.OpPong
+	}
+	s.ctlRec = tx.NewRec()
+	s.ctlW = wsutil.NewControlWriter(s.dst(s.ctlRec), s.state, cop)
+	n1, err1 := s.ctlW.Write(p[:len(p)/2])
+	n2, err2 := s.ctlW.Write(p[len(p)/2:])
+	s.logf("n=%d+%d err=%s,%s sent-so-far=%d", n1, n2, renderErr(err1), renderErr(err2), s.ctlRec.Len())
+}
+
+func (s *session) stepControlWriter2(o op) {
+	p := content(s.id, 1000+o.idx*16, o.spec.Size, false)
+	rop := byte(ref.OpPing)
+	if o.spec.Which%2 == 1 {
+		rop = ref.OpPong
+	}
+	err := s.ctlW.Flush()
+	s.logf("err=%s wrote=%s", renderErr(err), renderWire(s.ctlRec.Bytes()))
+	fs, rest, _ := ref.ParseFrames(s.ctlRec.Bytes())
+	s.expect(err == nil && len(rest) == 0 && len(fs) == 1 && fs[0].H.Fin && fs[0].H.Op == rop && fs[0].H.Masked == s.tpl.Client && bytes.Equal(fs[0].Payload, p),
+		"ControlWriter: the wire does not carry one control frame with the %d-byte payload", len(p))
+	s.ctlW = nil
+}
+
+// --- copying mask helpers ------------------------------------------------------------
+
+func (s *session) stepMaskHelpers(o op) {
+	wop, rop := s.opcode(o.spec)
+	p := s.ownedPayload(o)
+	key := peerMask(s.id, 2000+o.idx*16)
+	rec := tx.NewRec()
+	err := ws.WriteFrame(s.dst(rec), ws.MaskFrame(ws.NewFrame(wop, true, p)))
+	var err2 error
+	if err == nil {
+		err2 = ws.WriteFrame(s.dst(rec), ws.MaskFrameWith(ws.NewFrame(wop, true, p), key))
+	}
+	// read both back and unmask into copies
+	rd := s.src(rec.Bytes(), o.spec.Chunks)
+	var lines []string
+	good := err == nil && err2 == nil
+	for i := 0; i < 2 && good; i++ {
+		f, rerr := ws.ReadFrame(rd)
+		if rerr != nil {
+			lines = append(lines, renderErr(rerr))
+			good = false
+			break
+		}
+		masked := append([]byte(nil), f.Payload...)
+		u := ws.UnmaskFrame(f)
+		lines = append(lines, fmt.Sprintf("{op=%x masked-before=%t masked-after=%t %s}", u.Header.OpCode, f.Header.Masked, u.Header.Masked, digest(u.Payload)))
+		if !bytes.Equal(u.Payload, p) || !bytes.Equal(f.Payload, masked) || byte(u.Header.OpCode) != rop || (i == 1 && f.Header.Mask != key) {
+			good = false
+		}
+	}
+	s.logf("err=%s,%s read-back=%v", renderErr(err), renderErr(err2), lines)
+	s.expect(good, "MaskFrame/MaskFrameWith + WriteFrame, ReadFrame + UnmaskFrame do not round-trip the %d-byte payload", len(p))
 }
 
 // stepSendClose builds a close frame the documented way and sends it; the
@@ -1566,6 +1757,24 @@ func (s *session) step() {
 			s.stepOwnbufReuseWrite(o)
 		case "ownbuf-reuse-flush":
 			s.stepOwnbufReuseFlush(o)
+		case "cipher-writer-1":
+			s.stepCipherWriter1(o)
+		case "cipher-writer-2":
+			s.stepCipherWriter2(o)
+		case "cipher-reader-1":
+			s.stepCipherReader1(o)
+		case "cipher-reader-2":
+			s.stepCipherReader2(o)
+		case "readfrom-copy":
+			s.stepReadFromCopy(o)
+		case "readfrom-flush":
+			s.stepReadFromFlush(o)
+		case "control-writer-1":
+			s.stepControlWriter1(o)
+		case "control-writer-2":
+			s.stepControlWriter2(o)
+		case "mask-helpers":
+			s.stepMaskHelpers(o)
 		case "shared-send":
 			s.stepSharedSend(o)
 		case "send-close":
